@@ -156,6 +156,54 @@ fn through(delta: &ReplicationDelta) -> Vec<(&'static str, Result<Value, String>
     out
 }
 
+/// A batch of updates (all batch sizes of the property: one object, several updates - also several successive states of ONE
+/// key, which may well share their stamp: counters and sets built with `with_crdt` never tick it, a merge keeps the greater one)
+/// through the codecs that carry batches: a segment, a WAL file read back by the rotator, a gossip message.
+fn rt_batch_case(out: &mut Out, origin: &str, deltas: &[ReplicationDelta]) {
+    use redis_sim::streaming::wal_store::InMemoryWalStore;
+    use redis_sim::streaming::WalRotator;
+    let run = out.n + 1;
+    let want: Vec<Value> = deltas.iter().map(dv).collect();
+    let mut res: Vec<Value> = Vec::new();
+    let mut push = |codec: &str, r: Result<Vec<Value>, String>| match r {
+        Ok(v) => res.push(json!({"codec": codec, "ok": true, "equal": v == want, "err": if v.len() != want.len() { format!("{} of {} updates came back", v.len(), want.len()) } else { String::new() }})),
+        Err(e) => res.push(json!({"codec": codec, "ok": false, "equal": false, "err": e})),
+    };
+    push("segment", catch(|| -> Result<Vec<Value>, String> {
+        let mut w = SegmentWriter::new(Compression::None);
+        for d in deltas {
+            w.write_delta(d).map_err(|e| format!("{e:?}"))?;
+        }
+        let bytes = w.finish().map_err(|e| format!("{e:?}"))?;
+        let r = SegmentReader::open(&bytes).map_err(|e| format!("{e:?}"))?;
+        r.validate().map_err(|e| format!("{e:?}"))?;
+        Ok(r.read_all().map_err(|e| format!("{e:?}"))?.iter().map(dv).collect())
+    }).unwrap_or_else(|p| Err(format!("panic: {p}"))));
+    push("wal", catch(|| -> Result<Vec<Value>, String> {
+        let store = InMemoryWalStore::new();
+        let mut rot = WalRotator::new(store.clone(), 400).map_err(|e| format!("{e:?}"))?;
+        for d in deltas {
+            rot.append(&WalEntry::from_delta(d, d.value.timestamp.time).map_err(|e| format!("{e:?}"))?).map_err(|e| format!("{e:?}"))?;
+        }
+        rot.sync().map_err(|e| format!("{e:?}"))?;
+        let back = WalRotator::new(store, 1 << 30).map_err(|e| format!("{e:?}"))?.recover_all_entries().map_err(|e| format!("{e:?}"))?;
+        let mut v = Vec::new();
+        for e in back {
+            v.push(dv(&e.to_delta().map_err(|e| format!("{e:?}"))?));
+        }
+        Ok(v)
+    }).unwrap_or_else(|p| Err(format!("panic: {p}"))));
+    push("gossip", catch(|| -> Result<Vec<Value>, String> {
+        let m = GossipMessage::new_delta_batch(deltas[0].source_replica, deltas.to_vec(), 3);
+        let bytes = m.serialize().map_err(|e| format!("{e}"))?;
+        let back = GossipMessage::deserialize(&bytes).map_err(|e| format!("{e}"))?;
+        Ok(back.into_deltas().ok_or("no deltas")?.iter().map(dv).collect())
+    }).unwrap_or_else(|p| Err(format!("panic: {p}"))));
+    // (a checkpoint holds one value per key: it is not a carrier of batches)
+    res.push(json!({"codec": "checkpoint", "ok": true, "equal": true, "err": ""}));
+    out.emit(&json!({"t": "rt", "run": run, "origin": origin, "kind": "batch", "key": deltas[0].key, "bytes": 0, "n": deltas.len(), "res": res}));
+}
+
 fn rt_case(out: &mut Out, origin: &str, delta: &ReplicationDelta) {
     let run = out.n + 1;
     let want = dv(delta);
@@ -535,6 +583,35 @@ pub fn main(args: &[String]) -> i32 {
             }
             for (origin, d) in payload_values(&mut rng, a.usize("n", 300)) {
                 rt_case(&mut out, &origin, &d);
+            }
+            // batches: the successive states of one key on one replica along the TLC scenarios ...
+            if let Some(p) = a.get("scn") {
+                for scn in read_ndjson(p) {
+                    for (rid, hist) in crdt::history_values(scn.as_array().unwrap()) {
+                        if hist.len() >= 2 {
+                            let ds: Vec<ReplicationDelta> = hist.into_iter().map(|v| ReplicationDelta::new("k".into(), v, ReplicaId::new(rid))).collect();
+                            rt_batch_case(&mut out, "tlc_scenario_history", &ds);
+                        }
+                    }
+                }
+            }
+            // ... counters and sets built with with_crdt (their stamp never moves), and batches over several keys
+            {
+                use redis_sim::replication::state::CrdtValue;
+                let r = ReplicaId::new(2);
+                let mut g = CrdtValue::new_gcounter();
+                let mut states = Vec::new();
+                for i in 1..=4u64 {
+                    g.as_gcounter_mut().unwrap().increment_by(r, i);
+                    states.push(ReplicationDelta::new("ctr".into(), ReplicatedValue::with_crdt(g.clone(), r), r));
+                }
+                rt_batch_case(&mut out, "with_crdt_counter_states", &states);
+                let mut mixed = states.clone();
+                mixed.insert(2, ReplicationDelta::new("other".into(), lww(b"x".to_vec(), 0, 2), r));
+                mixed.push(ReplicationDelta::new("ctr".into(), lww(b"now a string".to_vec(), 0, 2), r));
+                rt_batch_case(&mut out, "with_crdt_counter_states_mixed", &mixed);
+                let many: Vec<ReplicationDelta> = (0..300u64).map(|i| ReplicationDelta::new(format!("k{}", i % 7), lww(format!("v{i}").into_bytes(), 5, 1 + i % 3), ReplicaId::new(1 + i % 3))).collect();
+                rt_batch_case(&mut out, "300_updates_7_keys_one_stamp_per_replica", &many);
             }
         }
         Some("damage") => damage(&mut out, a.str("tier", "quick") == "thorough", &mut rng),
